@@ -27,6 +27,11 @@ def gen(rng, tier):
         case = FU.gen_form_case(rng, tier, forms=("arc", "seq"), heur_p=0.0, nmax=5)
         if case["form"] == "seq":
             case["L"] = rng.choice([2, 3, 3, 4, 5])
+        if rng.random() < 0.3:
+            # the index maps of the instance as it is after: size asked, then the feasibility heuristic changed the problem
+            case["heur_after_enumeration"] = rng.choice(["1", "10", "100"])
+            if case["form"] == "seq":
+                case["L"] = max(3, case["L"])
         yield case
 
 
@@ -38,6 +43,19 @@ def run_case(case, drv):
     res = Result(key=core.case_key(case))
     form = case["form"]
     o, _ = FU.build_form(case, with_heur=False)
+    if case.get("heur_after_enumeration"):
+        o.get_num_variables()
+        if form == "seq":
+            o.get_var_index(0, 0, 0) if int(o.max_vehicles) and int(o.max_sequence_length) and len(o.nodes) else None
+        try:
+            import numpy as _np
+            _np.random.seed(1)
+            o.make_feasible(VU.val(case["heur_after_enumeration"]))
+            res.features.append("after-heuristic")
+        except Exception:  # noqa
+            res.features.append("heuristic-raised")
+            res.nontrivial = False
+            return res
     n = o.get_num_variables()
     g = VU.graph_of(o)
     N = len(g["nodes"])
